@@ -1,0 +1,18 @@
+//go:build verif
+
+package scheduler
+
+import "time"
+
+// VerifSetFixedTime sets (or, with the zero time, clears) the daemon's clock.
+func VerifSetFixedTime(t time.Time) { setFixedTime(t) }
+
+// VerifTick executes exactly one scheduler tick for the given minute.
+func (s *Scheduler) VerifTick(t time.Time) { s.run(t) }
+
+// VerifNextTick returns the tick following t.
+func (s *Scheduler) VerifNextTick(t time.Time) time.Time { return s.nextTick(t) }
+
+// VerifStartWatcher starts the DAG directory watcher without the
+// real-time loop. Closing done stops it.
+func (s *Scheduler) VerifStartWatcher(done chan any) { s.entryReader.Start(done) }
